@@ -726,6 +726,11 @@ func DepthProg(r *prng.R, thorough bool) *Prog {
 		{"D8", fmt.Sprintf("for v := range «RANGE(D7(n, 1))» {\n\tvrt.E(%d)\n\tif v%%k != 0 {\n\t\tcontinue\n\t}\n\t«Yield»(v)\n}", nt())},
 		{"D10", fmt.Sprintf("for i := 0; i < n; i++ {\n\tfor j := 0; j < 2; j++ {\n\t\tif j > 5 {\n\t\t\t«Yield»(j)\n\t\t}\n\t}\n\tvrt.E(%d)\n\tif i%%k != k-1 {\n\t\tcontinue\n\t}\n\t«Yield»(i)\n}", nt())},
 		{"D11", fmt.Sprintf("i := 0\nfor i < n {\n\ti++\n\tfor _, v := range []int{1, 2} {\n\t\tfor w := range v {\n\t\t\tif w > 5 {\n\t\t\t\t«Yield»(w)\n\t\t\t}\n\t\t}\n\t}\n\tvrt.E(%d)\n\tif i%%k == 0 {\n\t\t«Yield»(i)\n\t}\n}", nt())},
+		// an init-less inner loop that yields (so it is a loop of the runtime), first in the outer
+		// body: one loop VALUE run once per outer iteration; the depth is sampled INSIDE its
+		// condition / post statement
+		{"D12", fmt.Sprintf("j := 0\nfor i := 0; i < n; i++ {\n\tfor vrt.B(%d, j < 0) {\n\t\t«Yield»(j)\n\t}\n\tif i%%k != k-1 {\n\t\tcontinue\n\t}\n\t«Yield»(i)\n}", nt())},
+		{"D13", fmt.Sprintf("j := 0\nfor i := 0; i < n; i++ {\n\tfor ; j < i%%2; j += vrt.V(%d, 1) {\n\t\tif j < 0 {\n\t\t\t«Yield»(j)\n\t\t}\n\t}\n\tj = 0\n\tif i%%k != k-1 {\n\t\tcontinue\n\t}\n\t«Yield»(i)\n}", nt())},
 		{"D9", fmt.Sprintf("i := 0\nfor i < n {\n\ti++\n\tswitch {\n\tcase i%%k == 0:\n\t\t«Yield»(i)\n\tdefault:\n\t\tvrt.E(%d)\n\t}\n}", nt())},
 	}
 	var src, ref []string
